@@ -23,10 +23,11 @@ modname = mm.group(1) if mm else 'seeded_demo_1'
 pathattr = ''
 pm = re.search(r'#\[path\s*=\s*"([^"]+)"\]', modtxt)
 if pm:
-    # child module of a non-mod file: `#[path = ".."] mod x;` appended to the END of the named source file
-    tm = re.search(r'END of\s+(src/[\w/]+\.rs)', modtxt)
-    if tm:
-        modfile = tm.group(1)
+    # child module of a non-mod file: `#[path = ".."] mod x;` appended to the END of the source file the text names
+    allsrc = [c for c in re.findall(r'(src/[\w/]+\.rs)', modtxt) if 'seeded_demo' not in c]
+    pref = [c for c in allsrc if os.path.basename(c) not in ('mod.rs', 'lib.rs')]
+    if pref or allsrc:
+        modfile = (pref or allsrc)[0]
         pathattr = '#[path = "%s"]\n' % pm.group(1)
 # demo location: sibling of modfile
 ddir = os.path.dirname(modfile)
